@@ -15,7 +15,7 @@ from . import tlc
 
 ROOT = os.path.dirname(os.path.dirname(os.path.abspath(__file__)))
 # runs against a scratch copy of the repository (mutant self-tests) must not overwrite committed evidence
-EVIDENCE_DIR = os.path.join(ROOT, "evidence") if "XGCM_SRC" not in os.environ else os.path.join(
+EVIDENCE_DIR = os.path.join(ROOT, "evidence") if not ("XGCM_SRC" in os.environ or "XGCM_SEEDED_RUN" in os.environ) else os.path.join(
     tempfile.gettempdir(), "verif_mutant_evidence")
 REPLAY_DIR = os.path.join(EVIDENCE_DIR, "replays")
 KNOWN = os.path.join(ROOT, "known_findings.json")
@@ -216,6 +216,7 @@ def finish(ctx, level="model_checking", rule="", exhaustive=False):
         by_key.setdefault(r["key"], []).append(r)
     nviol = 0
     known_hit = []
+    shutil.rmtree(os.path.join(REPLAY_DIR, ctx.pid), ignore_errors=True)
     os.makedirs(os.path.join(REPLAY_DIR, ctx.pid), exist_ok=True)
     for key, rs in sorted(by_key.items()):
         if (ctx.pid, key) in known:
